@@ -3,7 +3,7 @@ use core::arch::x86_64::*;
 #[inline]
 fn inv_mod_pow2(p: usize, bits: u32) -> usize {
     // Compute p^{-1} mod 2^bits (p must be odd) through Hensel lifting.
-    debug_assert!(p % 2 == 1);
+    assert!(p % 2 == 1);
     let mut x: usize = 1usize; // inverse mod 2
     let mut i: u32 = 1;
     while i < bits {
@@ -19,13 +19,13 @@ fn inv_mod_pow2(p: usize, bits: u32) -> usize {
 /// all inputs must have the same length and must not alias.
 #[target_feature(enable = "avx2", enable = "fma")]
 pub fn znx_automorphism_avx(p: i64, res: &mut [i64], a: &[i64]) {
-    debug_assert_eq!(res.len(), a.len());
+    assert_eq!(res.len(), a.len());
     let n: usize = res.len();
     if n == 0 {
         return;
     }
     assert!(n.is_power_of_two(), "Polynomial degree {} must be power of 2", n);
-    debug_assert!(p & 1 == 1, "p must be odd (invertible mod 2n)");
+    assert!(p & 1 == 1, "p must be odd (invertible mod 2n)");
 
     if n < 4 {
         use poulpy_cpu_ref::reference::znx::znx_automorphism_ref;
